@@ -189,6 +189,11 @@ def run(ctx, rep):
         _c01.check_assembly(ctx, RuleProxy(rep, 'C03.G', 'assembly::'))
     except Unsupported as u:
         rep.undecided('C03.G', 'assembly', '', str(u))
+    # … and the matrices themselves are those of the branch lengths as they are: a floor on t inside p_t gives a finite, plausible and wrong value on every tree with a
+    # shorter branch, rescaled or not (the C04.E clause on every p_t)
+    from props import c04 as _c04
+    if _c04.check_time_enters_as_it_is(ctx, RuleProxy(rep, 'C03.G', 'time::')) < 5:
+        rep.incomplete('C03.G', 'time', '', 'fewer than 5 p_t methods found')
     plain = {n for n, k in kernels.items() if k.scaler is None}
     # an underflow of the plain kernels must surface as log(0) = -inf (that is what the isinf test of C03.G looks for); in every kernel the log is taken of the
     # site likelihood itself — a clamp / epsilon in between replaces tiny likelihoods by a bound instead of evaluating them with rescaling
